@@ -79,8 +79,37 @@ def check_labels(h: Harness, site, spec, b, v):
             f"gengy_* metadata differs from an independent traversal of {s[:240]}", [sx(line_spec), s])
 
 
+def context_programs(h: Harness):
+    from geneticengine.random.sources import NativeRandomSource
+    from geneticengine.representations.tree.initializations import MaxDepthDecider, PositionIndependentGrowDecider
+    import ctxgrammar
+    spec, b = ctxgrammar.make()
+    g = b.grammar
+    for seed in range(h.n(12, 120)):
+        r = NativeRandomSource(seed)
+        for mk in (MaxDepthDecider, PositionIndependentGrowDecider):
+            rep = TreeBasedRepresentation(g, mk(r, g, 5))
+            try:
+                el = rep.create_genotype(r)
+                progs = [("create_genotype[context-grammar]", el)]
+                for _ in range(2):
+                    progs.append(("TreeBasedRepresentation.mutate[context-grammar]", rep.mutate(r, el)))
+            except Exception as e:  # noqa: BLE001
+                h.count("context-grammar-error:" + type(e).__name__)
+                continue
+            for site, p in progs:
+                c = gram.canon(p, b)
+                s = sx(c)
+                labs = labels_of(p, b)
+                h.holds(site, "labels-differ-from-structure", ["prop_labels", gram.spec_sx(spec), c, labs],
+                        f"gengy_* metadata differs from an independent traversal of {s[:240]} (context-passing grammar)", [seed, s],
+                        nontrivial="(l " in s and s.count("(n ") >= 2)
+                h.count("context-grammar-programs")
+
+
 def run(h: Harness):
     rng = h.rng
+    context_programs(h)
     for _ in range(h.n(150, 3000)):
         spec = gram.productive_spec(rng, max_classes=rng.choice([3, 4, 6]), opts={"float": False})
         b = gram.build(spec)
